@@ -32,9 +32,9 @@ def CamtAmount.toData (a : CamtAmount) (cd : CdtDbt) : OwnedAmount :=
     | .credit => a.value
     | .debit => a.value.negate, a.currency⟩
 
-/-- `xmlnode::BalanceCode` (any other code fails to decode). -/
+/-- `xmlnode::BalanceCode` (`other`: CLAV, ITBD, … — decoded since fix F31, never looked at). -/
 inductive BalanceCode where
-  | opening | closing
+  | opening | closing | other
   deriving Repr, DecidableEq, Inhabited
 
 /-- `xmlnode::Balance`. -/
